@@ -140,7 +140,7 @@ func direct(w *World, fi int, path, cookie string) (resp *envoy.CheckResponse, p
 			panicked = p
 		}
 	}()
-	resp, _ = w.dispatch(fi, mkRequest("https", f.Spec.AppHost, path, hdr))
+	resp, _ = w.dispatch(context.Background(), fi, mkRequest("https", f.Spec.AppHost, path, hdr))
 	return resp, nil
 }
 
@@ -301,7 +301,7 @@ func runC16(p *Plan) *Result {
 				_, o.panicked = directLogin(w, op.F, op.B, op.Path)
 			case "late-login":
 				// arrives after the watcher had time to notice the repaired file
-				time.Sleep(8 * time.Millisecond)
+				w.Sim.SleepAs(t, 8*time.Millisecond)
 				w.Sim.SetCur(t)
 				_, o.panicked = directLogin(w, op.F, op.B, op.Path)
 			case "fresh", "refresh":
@@ -336,7 +336,7 @@ func runC16(p *Plan) *Result {
 				_ = os.Rename(tmp, caPath)
 				// stay around for a few polls of the watcher
 				for k := 0; k < 4; k++ {
-					time.Sleep(time.Millisecond)
+					w.Sim.SleepAs(t, time.Millisecond)
 					w.Sim.SetCur(t)
 					w.Sim.Yield("ca-wait")
 					w.Sim.SetCur(t)
